@@ -332,3 +332,38 @@ theorem resolve_forever (fs : FS) (main : String) : ∀ (fuel : Nat) (svcs : Ser
     · cases hnext
 
 end CV.C01.Ext
+
+namespace CV.C01.Ext
+
+theorem iter_add (fs : FS) (main : String) : ∀ (a b : Nat) (st : Services × String),
+    iter fs main (a + b) st = (iter fs main a st).bind (iter fs main b)
+  | 0, b, st => by simp [iter]
+  | a + 1, b, st => by
+    rw [show a + 1 + b = (a + b) + 1 by omega]
+    simp only [iter]
+    cases hn : next fs main st with
+    | none => simp
+    | some st' => simp [iter_add fs main a b st']
+
+/-- a chain that comes back to its starting state after `k > 0` steps can be followed forever -/
+theorem forever_of_period {fs : FS} {main : String} {st : Services × String} (k : Nat) (hk : 0 < k)
+    (h : iter fs main k st = some st) : Forever fs main st := by
+  have prefix_some : ∀ j, j ≤ k → (iter fs main j st).isSome := by
+    intro j hj
+    have e := iter_add fs main j (k - j) st
+    rw [show j + (k - j) = k by omega, h] at e
+    cases hi : iter fs main j st with
+    | none => rw [hi] at e; simp at e
+    | some _ => simp
+  intro n
+  induction n using Nat.strongRecOn with
+  | _ n ih =>
+    by_cases hlt : n < k
+    · exact prefix_some n (Nat.le_of_lt hlt)
+    · have e := iter_add fs main k (n - k) st
+      rw [show k + (n - k) = n by omega, h] at e
+      rw [e]
+      simp only [Option.bind_some]
+      exact ih (n - k) (by omega)
+
+end CV.C01.Ext
